@@ -121,6 +121,8 @@ def main(argv=None):
 
     t0 = time.time()
     os.environ['VERIF_RUN_ID'] = '%d_%d' % (os.getpid(), int(t0))
+    if a.tier == 'thorough':
+        os.environ.setdefault('VERIF_Z3_TIMEOUT_MS', '90000')      # the thorough tier may wait longer for a single query
     obs = pm.obligations(a.tier)
     if a.only:
         keep = set(a.only.split(','))
